@@ -165,6 +165,9 @@ def ctorOp : List String → String
     else if exp != "err" && !(factsOk rs && factsOk ra) then s!"MISMATCH ctor model={exp}"
     else propfail s!"connection-URL-configures-{rs}-and-{ra}-instead-of-{exp}"
   | ["mech", r] => if r == "101" then "ok" else s!"MISMATCH ctor model=101"
+  | ["poolcfg", a, b, r1, r2] =>
+    let exp := s!"{a},{b}"
+    if r1 == exp && r2 == exp then "ok" else propfail s!"PoolConfig-setters-do-not-store-what-was-asked:{r1}:{r2}:asked={exp}"
   | l => if l.getLast? == some "PANIC" then propfail "panic" else "BADLINE"
 
 end LV.Driver.C06
